@@ -696,6 +696,20 @@ def _run(ck: Check):
         "call logs of MDOLinearFunction are only bounded from above (the scaled twin has no user callable)",
     ]
 
+    # ---- specification growth: the life cycle of the problem around the evaluations (specs/ProblemLife.tla:
+    # add_* / preprocess / evaluate / reset with its 32 flag combinations / listeners).  Two of its design-level
+    # results ARE clauses of C01 (a function added after the pre-processing is handed the normalised vector and
+    # its value is never recorded under the physical point): they are promoted to violations, matched by the
+    # recorded finding D0109; everything else stays an observation.
+    from ..core import Promote
+    from ..growth import g06_problem_life
+
+    late = {"what": "function_added_after_preprocessing"}
+    g06_problem_life.run(Promote(ck, {
+        "G06.problem-life.late-function-evaluated-at-normalized-vector": ("Faithful", late),
+        "G06.problem-life.late-function-not-recorded": ("Recorded", late),
+    }))
+
 
 if __name__ == "__main__":
     main("C01", run)
